@@ -169,8 +169,8 @@ def run_trace(spec):
     n = Net2(jdir=spec.get("jdir"), tag=spec["id"].replace("/", "_"))
     err = None
     try:
-        with watchdog(spec.get("watchdog", 30)):
-            for ev in spec["evs"]:
+        for ev in spec["evs"]:
+            with watchdog(spec.get("watchdog", 30)):      # per event
                 n.apply(ev)
     except (Exception, Livelock) as ex:
         err = "%s: %s" % (type(ex).__name__, ex)
